@@ -235,6 +235,19 @@ func interiorDist(x, a, b Point, minDist s1.ChordAngle, alwaysUpdate bool) (s1.C
 	// Chord distance of x to both end points a and b.
 	xa2, xb2 := (x.Sub(a.Vector)).Norm2(), x.Sub(b.Vector).Norm2()
 
+	// If X is more than 90 degrees from both endpoints, the closest point is
+	// an endpoint: along the great circle through AB the distance d(s) from X
+	// satisfies cos d(s) = cos D * cos(s - s0), where s0 is the foot of X and
+	// D its distance from the circle, and if s0 were interior to AB (which is
+	// shorter than 180 degrees) one endpoint would be within 90 degrees of s0
+	// and therefore of X. Without this test, for edges only a few ulps long
+	// the sign tests below are decided by rounding noise and can pass for an X
+	// on the far side of the sphere, where the distance to the great circle
+	// (about zero near the edge's antipode) would be returned.
+	if math.Min(xa2, xb2) > 2+16*dblEpsilon {
+		return minDist, false
+	}
+
 	// The closest point on AB could either be one of the two vertices (the
 	// vertex case) or in the interior (the interior case). Let C = A x B.
 	// If X is in the spherical wedge extending from A to B around the axis
@@ -310,16 +323,6 @@ func interiorDist(x, a, b Point, minDist s1.ChordAngle, alwaysUpdate bool) (s1.C
 	// minUpdateInteriorDistanceMaxError.
 	cx := c.Cross(x.Vector)
 	if a.Sub(x.Vector).Dot(cx) >= 0 || b.Sub(x.Vector).Dot(cx) <= 0 {
-		return minDist, false
-	}
-
-	// The closest point can only be in the interior of AB if X lies in the
-	// hemisphere centered at the edge's midpoint. For edges only a few ulps
-	// long the two sign tests above are decided by rounding noise and can
-	// also pass for an X on the far side of the sphere, where the distance
-	// to the great circle (about zero near the edge's antipode) would be
-	// returned instead of the distance to an endpoint.
-	if x.Dot(a.Add(b.Vector)) <= 0 {
 		return minDist, false
 	}
 
